@@ -58,7 +58,7 @@ func CreatePutUploadHandler(storage blobserver.BlobReceiver) http.Handler {
 			return
 		}
 		// For non-chunked uploads, we catch it here. For chunked uploads, it's caught
-		// by blobserver.Receive's LimitReader.
+		// by blobserver.Receive, which fails with ErrBlobTooLarge.
 		if req.ContentLength > blobserver.MaxBlobSize {
 			httputil.BadRequestError(rw, "blob too big")
 			return
@@ -77,6 +77,10 @@ func CreatePutUploadHandler(storage blobserver.BlobReceiver) http.Handler {
 		_, err := blobserver.Receive(ctx, storage, br, req.Body)
 		if errors.Is(err, blobserver.ErrCorruptBlob) {
 			httputil.BadRequestError(rw, "data doesn't match declared digest")
+			return
+		}
+		if errors.Is(err, blobserver.ErrBlobTooLarge) {
+			httputil.BadRequestError(rw, "blob too big")
 			return
 		}
 		if err != nil {
